@@ -115,3 +115,143 @@ pub fn field_mutations(b: &[u8], fields: &[Field], le: bool) -> Vec<(Vec<u8>, St
     }
     out
 }
+
+fn looks_like_leb(b: &[u8]) -> bool {
+    !b.is_empty() && b.len() <= 10 && b[..b.len() - 1].iter().all(|x| x & 0x80 != 0) && b[b.len() - 1] & 0x80 == 0
+}
+
+/// Value of a `Length` field: fixed width 1/2/4/8, a 12-byte 64-bit initial length, or one
+/// LEB128 number.  Returns (value, offset of the value bytes inside the field, width, is_leb).
+fn length_value(b: &[u8], f: &Field, le: bool) -> Option<(u64, usize, usize, bool)> {
+    let cur = b.get(f.off..f.off + f.len)?;
+    match f.len {
+        12 if cur[..4] == [0xff; 4] => Some((crate::asm::get_uint(&cur[4..], le, 8), 4, 8, false)),
+        // one byte: the same value as a fixed-width field and as a LEB128; written back only below 0x80
+        1 => Some((cur[0] as u64, 0, 1, true)),
+        2 | 4 | 8 => Some((crate::asm::get_uint(cur, le, f.len), 0, f.len, false)),
+        _ if looks_like_leb(cur) => {
+            let mut v: u64 = 0;
+            for (i, x) in cur.iter().enumerate() {
+                if i < 10 {
+                    v |= ((x & 0x7f) as u64).checked_shl(7 * i as u32).unwrap_or(0);
+                }
+            }
+            Some((v, 0, f.len, true))
+        }
+        _ => None,
+    }
+}
+
+/// Replace `b[off..off + old_len]` by `new`.  When the length changes, every `Length` field
+/// in front of `off` whose byte count covers the replaced range (unit lengths, header
+/// lengths, extended-opcode and block lengths) is adjusted by the difference, so that the
+/// surrounding structure stays consistent and the mutated part is actually reached.
+fn replace_fixup(b: &[u8], fields: &[Field], le: bool, off: usize, old_len: usize, new: &[u8]) -> Vec<u8> {
+    let mut o = b[..off].to_vec();
+    o.extend_from_slice(new);
+    o.extend_from_slice(&b[off + old_len..]);
+    let delta = new.len() as i64 - old_len as i64;
+    if delta == 0 {
+        return o;
+    }
+    for f in fields {
+        if f.kind != FieldKind::Length || f.off + f.len > off {
+            continue;
+        }
+        let Some((v, voff, width, is_leb)) = length_value(b, f, le) else { continue };
+        let fend = (f.off + f.len) as u64;
+        if (off as u64) < fend || (off + old_len) as u64 > fend.saturating_add(v) {
+            continue;
+        }
+        let Some(nv) = (v as i64).checked_add(delta).filter(|x| *x >= 0).map(|x| x as u64) else { continue };
+        if is_leb {
+            if crate::asm::uleb_bytes(nv).len() <= width {
+                let nb = crate::asm::uleb_padded(nv, width);
+                o[f.off..f.off + width].copy_from_slice(&nb);
+            }
+        } else if width >= 8 || nv < (1u64 << (8 * width as u32)) {
+            let bytes = nv.to_le_bytes();
+            for i in 0..width {
+                o[f.off + voff + i] = if le { bytes[i] } else { bytes[width - 1 - i] };
+            }
+        }
+    }
+    o
+}
+
+/// Structure-aware mutations used by C01 (superset of `field_mutations`, which is left
+/// unchanged for its other users):
+/// * every field of at most 8 bytes that is not a string: each fixed-width hostile value of
+///   its kind in the section's byte order (also `Data` fields);
+/// * `Uleb` / `Sleb` fields, and fields of kind Length / Count / Index / Form / Other / Offset
+///   whose bytes form exactly one LEB128 number (the field map does not say whether such a
+///   field is fixed-width or LEB128-encoded): each hostile LEB128 string (may change the length);
+/// * `Str` fields: emptied, cut to one byte, NUL in the middle, terminator removed;
+/// * any field of 2..=64 bytes: deleted, duplicated;
+/// * truncation at every field boundary +-1.
+/// Length-changing replacements adjust the enclosing length fields (see `replace_fixup`).
+pub fn field_mutations_ext(b: &[u8], fields: &[Field], le: bool) -> Vec<(Vec<u8>, String)> {
+    let mut out = vec![];
+    for f in fields {
+        let end = f.off + f.len;
+        if end > b.len() {
+            continue;
+        }
+        let cur = &b[f.off..end];
+        let lebs = |out: &mut Vec<(Vec<u8>, String)>| {
+            for leb in crate::asm::hostile_lebs() {
+                out.push((replace_fixup(b, fields, le, f.off, f.len, &leb), format!("field {}@{} := leb {}", f.name, f.off, crate::rt::hex(&leb))));
+            }
+        };
+        let fixed = |out: &mut Vec<(Vec<u8>, String)>| {
+            if f.len <= 8 && f.len > 0 {
+                for v in crate::asm::hostile_values(f.kind, f.len) {
+                    let mut o = b.to_vec();
+                    let bytes = v.to_le_bytes();
+                    for i in 0..f.len {
+                        o[f.off + i] = if le { bytes[i] } else { bytes[f.len - 1 - i] };
+                    }
+                    out.push((o, format!("field {}@{} := {v:#x}", f.name, f.off)));
+                }
+            }
+        };
+        match f.kind {
+            FieldKind::Uleb | FieldKind::Sleb => lebs(&mut out),
+            FieldKind::Str => {
+                if f.len > 0 {
+                    out.push((replace_fixup(b, fields, le, f.off, f.len, &[]), format!("string {}@{} emptied", f.name, f.off)));
+                }
+                if f.len > 1 {
+                    out.push((replace_fixup(b, fields, le, f.off, f.len, &cur[..1]), format!("string {}@{} cut to 1 byte", f.name, f.off)));
+                    let mut o = b.to_vec();
+                    o[f.off + f.len / 2] = 0;
+                    out.push((o, format!("string {}@{} NUL in the middle", f.name, f.off)));
+                }
+                if let Some(p) = b[f.off..].iter().position(|x| *x == 0) {
+                    let mut o = b.to_vec();
+                    o[f.off + p] = b'A';
+                    out.push((o, format!("string {}@{} terminator removed", f.name, f.off)));
+                }
+            }
+            FieldKind::Length | FieldKind::Count | FieldKind::Index | FieldKind::Form | FieldKind::Other | FieldKind::Offset => {
+                fixed(&mut out);
+                if looks_like_leb(cur) {
+                    lebs(&mut out);
+                }
+            }
+            _ => fixed(&mut out),
+        }
+        if (2..=64).contains(&f.len) {
+            out.push((replace_fixup(b, fields, le, f.off, f.len, &[]), format!("field {}@{} deleted", f.name, f.off)));
+            let mut twice = cur.to_vec();
+            twice.extend_from_slice(cur);
+            out.push((replace_fixup(b, fields, le, f.off, f.len, &twice), format!("field {}@{} duplicated", f.name, f.off)));
+        }
+        for cut in [f.off.saturating_sub(1), f.off, f.off + 1, f.off + f.len] {
+            if cut <= b.len() {
+                out.push((b[..cut].to_vec(), format!("truncate at field {}@{}", f.name, cut)));
+            }
+        }
+    }
+    out
+}
